@@ -74,4 +74,32 @@ PROPS = {
                  "the id-list codec cpulist::{emit,parse}: no verdict within 15 min even for 3 ids / 3 bytes (DESIGN.md P11/P25)",
                  "mask widening (insert beyond the current width), masks wider than 2 words in executed harnesses, enumeration of more than one word"],
     ),
+    "C05": dict(
+        mirproto=dict(model="events_once", package="events_once", kcap_quick=64, kcap_thorough=96, timeout_quick=900, timeout_thorough=3600, assumptions=[]),
+        assumptions=[
+            "release-profile MIR (debug-assertions off): the debug-only backtrace mutex is outside the claim",
+            "memory model: ONE atomic location (the state byte), so coherence makes the values read sequentially consistent; happens-before is tracked exactly with per-thread vector clocks under the orderings written in the source (release/acquire on stores, loads, RMWs, acquire and release fences, release sequences through RMWs). RMWs and failed compare_exchange read the latest value",
+            "the four endpoint wrappers (SenderCore::{send,drop}, ReceiverCore::{poll,is_ready,into_value,drop}) are modelled by hand and pinned by a structural MIR fingerprint (callees, switch shapes, constants): a changed wrapper stops the check with 'no verdict'",
+            "storage release is abstract: the call sites of release_event are modelled, not the bodies of the boxed / embedded / pooled implementations",
+            "spin loops: runs in which a thread spins longer than the step bound are outside the bound (fair scheduling assumed)",
+            "thread-local computation is executed concretely from the MIR; unknown callees / statements abort the extraction (fail closed)",
+            "z3 (bit-blasting + SAT) is trusted",
+        ],
+        outside=["receiver programs longer than 2 (quick) / 3 (thorough) operations; more than 3 distinct wakers", "re-entrant waker callbacks on the thread-safe event (C07 covers the single-threaded event)",
+                 "executions longer than the per-scenario step bound (spinning)", "pool / lake rental traffic"],
+    ),
+    "C06": dict(
+        mirproto=dict(model="events_once", package="events_once", kcap_quick=64, kcap_thorough=96, timeout_quick=900, timeout_thorough=3600, assumptions=[]),
+        assumptions=[
+            "release-profile MIR (debug-assertions off): the debug-only backtrace mutex is outside the claim",
+            "memory model: ONE atomic location (the state byte), so coherence makes the values read sequentially consistent; happens-before is tracked exactly with per-thread vector clocks under the orderings written in the source (release/acquire on stores, loads, RMWs, acquire and release fences, release sequences through RMWs). RMWs and failed compare_exchange read the latest value",
+            "the four endpoint wrappers (SenderCore::{send,drop}, ReceiverCore::{poll,is_ready,into_value,drop}) are modelled by hand and pinned by a structural MIR fingerprint (callees, switch shapes, constants): a changed wrapper stops the check with 'no verdict'",
+            "storage release is abstract: the call sites of release_event are modelled, not the bodies of the boxed / embedded / pooled implementations",
+            "spin loops: runs in which a thread spins longer than the step bound are outside the bound (fair scheduling assumed)",
+            "thread-local computation is executed concretely from the MIR; unknown callees / statements abort the extraction (fail closed)",
+            "z3 (bit-blasting + SAT) is trusted",
+        ],
+        outside=["the bodies of release_event (dealloc / pool return) and many-thread rental traffic on pools and lakes", "receiver programs longer than 2 (quick) / 3 (thorough) operations",
+                 "executions longer than the per-scenario step bound (spinning)"],
+    ),
 }
